@@ -19,7 +19,7 @@ def run(ctx, res):
         big = ctx.tier != "quick"
         for k, (f, nq) in enumerate(((scenarios.family_a, 480), (scenarios.family_joins, 130), (scenarios.family_unions, 80),
                                      (scenarios.family_slices, 50), (scenarios.family_grouping, 50),
-                                     (scenarios.family_names, 10 ** 6))):
+                                     (scenarios.family_names, 10 ** 6), (scenarios.family_suffix, 60))):
             fam += scenarios.pick(f(), 10 ** 6 if big else nq, ctx.seed + 3 + k)
     pipeprop.run(ctx, res, "C01", PROFILE, n_quick=350, n_thorough=8000, probe_ids=("F07",), label="broad", extra_cases=fam)
     res.coverage["scenario_grid"] = {"family": "A + joins + unions + slices + grouping + names", "cases": len(fam)}
